@@ -390,10 +390,7 @@ class SuperSpeedStreamInEndpoint(Elaboratable):
 
                         # In this case, we'll re-transmit the relevant data, either by sending another ZLP...
                         with m.If(last_packet_was_zlp):
-                            m.d.comb += [
-                                interface.tx_zlp.eq(1),
-                                advance_sequence.eq(1),
-                            ]
+                            m.d.comb += interface.tx_zlp.eq(1)
 
                         # ... or by moving right back into sending a data packet.
                         with m.Else():
